@@ -197,6 +197,7 @@ class scheduler {
   std::uint64_t steps() const { return step_; }
   unsigned preemptions() const { return preemptions_; }
   unsigned spins() const { return spins_; }
+  bool fair_continued() const { return fair_entered_; }
   bool record_trace = true;
 
   // --- called from scheduled threads -------------------------------------------
@@ -251,6 +252,7 @@ class scheduler {
   void sched_event(evkind k) noexcept;
   int default_choice(evkind k, int cur, unsigned options) const noexcept;
   unsigned fair_run_ = 0, fair_switches_ = 0;  // fair continuation past the step limit
+  bool fair_entered_ = false;
   void switch_to(int from, int to) noexcept;
   [[noreturn]] void abort_execution(verdict_kind v) noexcept;
 };
@@ -335,6 +337,7 @@ inline void scheduler::run(const std::vector<std::function<void()>>& bodies, str
   consecutive_spins_ = 0;
   fair_run_ = 0;
   fair_switches_ = 0;
+  fair_entered_ = false;
   for (auto& b : last_stay_step_) b = 0;
   last_switch_step_ = 1;
   blocked_ = 0;
@@ -488,6 +491,7 @@ inline void scheduler::sched_event(evkind k) noexcept {
     // operation that has still not returned then violates "in every schedule in which each thread
     // keeps being scheduled, every operation returns".
     if (step_ > step_limit * 3) abort_execution(V_LIVELOCK);
+    fair_entered_ = true;
     int ch = me;
     const bool me_runnable = ((runnable_ >> me) & 1U) != 0;  // false at FINISH / BLOCK events
     if (k == EV_SPIN) {
